@@ -7,10 +7,20 @@ PID = "C01"
 def run(tier, seed, only=None):
     cfgs = [req.Cfg("transformed-ram"), req.Cfg("initial-ram", ram="initial-ram")]
     jobs = [(c, cfgs) for c in corpus.corpus(tier)]
-    res = rcheck.run_jobs(PID, tier, jobs, only=only,
+    res = rcheck.run_jobs(PID, tier, jobs, only=(None if only == "aggregate-kernels" else only),
                            what="For each corpus program, the RAM that the real souffle emits (before and after RAM optimisation) is "
                                 "executed symbolically over a symbolic fact database and z3 decides that every output relation equals "
                                 "the stratified least model computed by an independent reference, for every database in the bound.")
+    if not only or only == "aggregate-kernels":
+        # K part: the interpreter's aggregate kernels (Engine::initValue / runNested / fold step, cut verbatim) against the
+        # aggregate specification incl. the empty-set rule -- shares the machinery of C02(d)
+        from engine_k import c02
+        k = c02.run(tier, seed, only="aggregate")
+        for v in k.violations:
+            res.violation("k:" + v["key"], "interpreter aggregate kernel: " + v["what"], v["replay"])
+        for i in k.inconclusive:
+            res.inconc("aggregate kernels: " + i)
+        res.coverage["k_part_aggregate_kernels"] = {kk: k.coverage.get(kk) for kk in ("obligations", "discharged", "by_group", "queries", "solver_time_s", "functions_encoded")}
     if not only:
         v = selfval.validate(tier)
         res.coverage["traces_validated_against_impl"] = v["validated"]
